@@ -33,6 +33,7 @@ type UMsg struct {
 	Internal bool
 	Chain    int
 	Link     bool // sent by the receiver to itself as part of a chain
+	PanicVal int
 	GateNext bool
 }
 type GateMsg struct{ N int }
@@ -231,6 +232,21 @@ func (r *rcv) Receive(c *actor.Context) {
 			}
 			if m.Internal {
 				panic(&actor.InternalError{From: "harness", Err: fmt.Errorf("planned internal error on message %d", m.ID)})
+			}
+			switch m.PanicVal {
+			case 1:
+				panic(fmt.Errorf("planned panic on message %d", m.ID))
+			case 2:
+				panic([]string{"planned panic", fmt.Sprint(m.ID)}) // not comparable
+			case 3:
+				panic(map[string]int{"planned panic on message": m.ID}) // not comparable
+			case 4:
+				panic(struct {
+					Op     string
+					Fields []string
+				}{"planned panic", []string{fmt.Sprint(m.ID)}}) // a value type that holds a slice: not comparable
+			case 5:
+				panic(nil)
 			}
 			panic(fmt.Sprintf("planned panic on message %d", m.ID))
 		}
@@ -735,7 +751,7 @@ func Run(spec Spec, waitOrphans bool) (*Obs, *Sim, error) {
 					from = w.senders[op.From-1]
 				}
 				for k := 0; k < n; k++ {
-					e.SendWithSender(w.pid, UMsg{ID: op.ID + k, Panic: op.Panic && n == 1, Internal: op.Internal && op.Panic && n == 1, GateNext: op.GateNext && n == 1, Chain: chainOf(op, n)}, from)
+					e.SendWithSender(w.pid, UMsg{ID: op.ID + k, Panic: op.Panic && n == 1, Internal: op.Internal && op.Panic && n == 1, GateNext: op.GateNext && n == 1, Chain: chainOf(op, n), PanicVal: op.PanicVal}, from)
 				}
 				if c := chainOf(op, n); c > 0 {
 					chainFinals = append(chainFinals, op.ID+c)
